@@ -1,8 +1,12 @@
-import Ktm.Driver
-partial def loop (h : IO.FS.Stream) (st : Option Driver.St) : IO Unit := do
+import Ktm.DriverAll
+/-! stdin → stdout line loop of the model driver (one JSON object per line, one answer per line). -/
+partial def loop (h : IO.FS.Stream) (out : IO.FS.Stream) (st : DriverAll.DSt) : IO Unit := do
   let line ← h.getLine
   if line.isEmpty then return ()
-  let (st', out) := Driver.handle st line
-  IO.println out
-  loop h st'
-def main : IO Unit := do loop (← IO.getStdin) none
+  let (st', ans) := DriverAll.handleLine st line
+  out.putStrLn ans
+  loop h out st'
+def main : IO Unit := do
+  let out ← IO.getStdout
+  loop (← IO.getStdin) out .none
+  out.flush
